@@ -12,17 +12,42 @@ use std::sync::atomic::{AtomicUsize, Ordering};
 use std::sync::{Arc, Mutex};
 
 pub fn copy_dir(from: &Path, to: &Path) {
+    // a directory that is still being written (segments merged and deleted in the background) is copied again until one
+    // pass sees no file vanish under it
+    for _ in 0..5 {
+        if copy_dir_once(from, to) {
+            return;
+        }
+        std::thread::sleep(std::time::Duration::from_millis(200));
+        let _ = std::fs::remove_dir_all(to);
+    }
+    copy_dir_once(from, to);
+}
+
+fn copy_dir_once(from: &Path, to: &Path) -> bool {
+    let mut stable = true;
     std::fs::create_dir_all(to).unwrap();
-    for e in std::fs::read_dir(from).unwrap() {
-        let e = e.unwrap();
+    let entries = match std::fs::read_dir(from) {
+        Ok(e) => e,
+        Err(_) => return false,
+    };
+    for e in entries {
+        let e = match e {
+            Ok(e) => e,
+            Err(_) => {
+                stable = false;
+                continue;
+            }
+        };
         let p = e.path();
         let t = to.join(e.file_name());
         if p.is_dir() {
-            copy_dir(&p, &t);
-        } else {
-            std::fs::copy(&p, &t).unwrap();
+            stable &= copy_dir_once(&p, &t);
+        } else if std::fs::copy(&p, &t).is_err() {
+            stable = false;
         }
     }
+    stable
 }
 
 /// The tool's schema (variant 0), or what another version might have left behind: other field names (1), the same field
@@ -418,8 +443,6 @@ pub fn replay(args: &[String]) -> i32 {
     let repo = arg_value(args, "--repo").unwrap_or("/repo".into());
     let docs_model = arg_num(args, "--docs-model", 2);
     let jobs = arg_num(args, "--jobs", 12) as usize;
-    // the driver hands over the schedules in batches (one process each): numbers go on from the batches before
-    let offset = arg_num(args, "--offset", 0) as usize;
     let nq = arg_num(args, "--queries", 150) as usize;
     let _ = std::fs::remove_dir_all(&work);
     std::fs::create_dir_all(&work).unwrap();
@@ -540,8 +563,8 @@ pub fn replay(args: &[String]) -> i32 {
             if i >= vectors.len() {
                 break;
             }
-            let r = run_vector(&ctx, offset + i, &vectors[i], docs_model);
-            results.lock().unwrap().push((offset + i, r));
+            let r = run_vector(&ctx, i, &vectors[i], docs_model);
+            results.lock().unwrap().push((i, r));
         }));
     }
     for h in handles {
